@@ -23,7 +23,7 @@ function is `concreteRun` in lean/GrogModel/Drv/Build.lean.
 import copy, hashlib, json, os, shutil, subprocess, fnmatch
 from concurrent.futures import ThreadPoolExecutor
 
-ALL_FIXES = {"gateChecks": True, "syncTaint": True, "rerunOnce": True, "minValidate": True, "alias": True}
+ALL_FIXES = {"gateChecks": True, "syncTaint": True, "rerunOnce": True, "minValidate": True, "loadFault": True, "alias": True}
 
 
 # ------------------------------------------------------------------------------------------------
@@ -148,18 +148,23 @@ def out_path(t, o):
     return (t["pkg"] + "/" if t["pkg"] else "") + o["rel"]
 
 
+def all_outs(t):
+    """declared outputs incl. the bin_output (a file the command does not write: a checked-in script that is also an input)"""
+    return list(t["outs"]) + ([{"dir": False, "rel": t["bin"], "bin": True}] if t.get("bin") else [])
+
+
 def sorted_outs(t):
     """declared outputs in the canonical order used by model and commands (by definition string)"""
-    return sorted(t["outs"], key=lambda o: ("dir::" if o["dir"] else "") + o["rel"])
+    return sorted(all_outs(t), key=lambda o: ("dir::" if o["dir"] else "") + o["rel"])
 
 
 def all_out_paths(ws):
-    return {out_path(t, o): o["dir"] for t in ws["targets"].values() for o in t["outs"]}
+    return {out_path(t, o): o["dir"] for t in ws["targets"].values() for o in all_outs(t)}
 
 
 def wf(ws):
     """inputs disjoint from declared outputs (the WF predicate of the theorems), judged on patterns"""
-    outs = all_out_paths(ws)
+    outs = {out_path(t, o): o["dir"] for t in ws["targets"].values() for o in t["outs"]}
     for l, t in ws["targets"].items():
         pre = t["pkg"] + "/" if t["pkg"] else ""
         for p in outs:
@@ -205,31 +210,47 @@ def cmd_text(ws, l):
         excl = 'case "$f" in ' + "|".join(t["excl"]) + ") continue;; esac; "
     if lst:
         L.append("{ " + "; ".join(lst) + "; } | LC_ALL=C sort -u | while IFS= read -r f; do " + excl +
-                 "printf 'I %s\\n' \"" + pre + "$f\"; cat \"$f\"; done > \"$c\"")
+                 "printf '%s\\n' \"$f\"; done > \"$c.l\"")
+    else:
+        L.append(': > "$c.l"')
+    L.append("while IFS= read -r f; do printf 'I %s\\n' \"" + pre + "$f\"; cat \"$f\"; done < \"$c.l\" > \"$c\"")
     for d in rdeps(ws, l):
         dt = ws["targets"][d]
         for o in sorted_outs(dt):
             p = out_path(dt, o)
             L.append("printf 'D %s\\n' " + q(p) + ' >> "$c"')
             if o["dir"]:
-                L.append('( cd "$W/' + p + "\" && find . -type f | LC_ALL=C sort | while IFS= read -r f; do printf 'F %s\\n' \"$f\"; cat \"$f\"; done ) >> \"$c\"")
+                L.append('( cd "$W/' + p + "\" && find . \\( -type f -o -type l \\) | LC_ALL=C sort | while IFS= read -r f; do "
+                         "if [ -L \"$f\" ]; then printf 'L %s %s\\n' \"$f\" \"$(readlink \"$f\")\"; "
+                         "else printf 'F %s\\n' \"$f\"; cat \"$f\"; fi; done ) >> \"$c\"")
             else:
                 L.append('cat "$W/' + p + '" >> "$c"')
-    for o in sorted_outs(t):
-        if o["rel"] in t.get("skip", []):
-            continue
+    if t.get("split"):
+        L.append('n=$(wc -l < "$c.l")')
+    written = [o for o in sorted_outs(t) if o["rel"] not in t.get("skip", []) and not o.get("bin")]
+    for k, o in enumerate(written):
         p = out_path(t, o)
         hdr = "printf 'T %s %s\\n' " + q(t["salt"]) + " " + q(p)
         if o["dir"]:
-            L.append('rm -rf "$W/' + p + '"; mkdir -p "$W/' + p + '/sub"')
-            L.append("{ " + hdr + '; cat "$c"; } > "$W/' + p + '/a.txt"')
-            L.append("{ " + hdr + '; cat "$c"; printf \'+\\n\'; } > "$W/' + p + '/sub/b.txt"')
+            D = '"$W/' + p
+            L.append('rm -rf ' + D + '"; mkdir -p ' + D + '/sub"')
+            L.append("{ " + hdr + '; cat "$c"; } > ' + D + '/a.txt"')
+            L.append("{ " + hdr + '; cat "$c"; printf \'+\\n\'; } > ' + D + '/sub/b.txt"')
+            L.append('ln -s a.txt ' + D + '/link"')
+            L.append('if [ -s "$c.l" ]; then mkdir -p ' + D + '/in"; fi')
+            L.append('while IFS= read -r f; do cat "$f" > ' + D + '/in/$(printf \'%s\' "' + pre + '$f" | tr / _)"; done < "$c.l"')
         else:
             L.append('mkdir -p "$(dirname "$W/' + p + '")"')
-            L.append("{ " + hdr + '; cat "$c"; } > "$W/' + p + '"')
+            normal = "{ " + hdr + '; cat "$c"; } > "$W/' + p + '"'
+            if t.get("split"):
+                # splitter: output k is a copy of input (k mod n); the order of outputs is the canonical (sorted) one
+                L.append('if [ "$n" -gt 0 ]; then f=$(sed -n "$(( ' + str(k) + ' % n + 1 ))p" "$c.l"); { printf \'S\\n\'; cat "$f"; } > "$W/' + p +
+                         '"; else ' + normal + "; fi")
+            else:
+                L.append(normal)
     for p, content in t.get("sets", []):
         L.append('mkdir -p "$(dirname "$W/' + p + '")"; printf \'%s\' ' + q(content) + ' > "$W/' + p + '"')
-    L.append('rm -f "$c"')
+    L.append('rm -f "$c" "$c.l"')
     return "\n".join(L)
 
 
@@ -252,6 +273,8 @@ def build_files(ws):
             d["dependencies"] = list(t["deps"])
         if t["outs"]:
             d["outputs"] = [("dir::" if o["dir"] else "") + o["rel"] for o in t["outs"]]
+        if t.get("bin"):
+            d["bin_output"] = t["bin"]
         if t.get("fp"):
             d["fingerprint"] = dict(t["fp"])
         if t.get("nocache"):
@@ -293,6 +316,21 @@ def sync_ws(root, old, new):
 def apply_writes(root, writes):
     for w in writes:
         if isinstance(w, dict):
+            if "dirtamper" in w:
+                d = os.path.join(root, w["dirtamper"])
+                if os.path.isdir(d):
+                    if w["op"] == "extra":
+                        write_file(d, "zz_stale.txt", "stale\n")
+                    elif w["op"] == "extrasub":
+                        write_file(d, "in/zz_stale.in", "stale\n")
+                    elif w["op"] == "mod":
+                        write_file(d, "a.txt", "modified\n")
+                    elif w["op"] == "rmfile":
+                        try:
+                            os.remove(os.path.join(d, "sub", "b.txt"))
+                        except FileNotFoundError:
+                            pass
+                continue
             shutil.rmtree(os.path.join(root, w["rmtree"]), ignore_errors=True)
             continue
         p, c = w
@@ -309,18 +347,29 @@ def apply_writes(root, writes):
             write_file(root, p, c)
 
 
+DIR_MAGIC = b"\x00DIR\x00"
+
+
+def _fr(b):
+    return str(len(b)).encode() + b":" + b
+
+
 def read_path(root, p):
-    """canonical value of a path: file bytes; for a directory the listing `F ./rel\\n<content>`; None if absent"""
+    """canonical value of a path: file bytes; for a directory the encoded entry set (DirVal.encTree in Lean); None if absent"""
     full = os.path.join(root, p)
-    if os.path.isdir(full):
+    if os.path.isdir(full) and not os.path.islink(full):
         acc = []
         for dp, _, fns in os.walk(full):
             for fn in fns:
                 rel = "./" + os.path.relpath(os.path.join(dp, fn), full)
                 acc.append(rel)
-        out = b""
+        out = DIR_MAGIC
         for rel in sorted(acc, key=lambda s: s.encode()):
-            out += b"F " + rel.encode() + b"\n" + open(os.path.join(full, rel), "rb").read()
+            fp = os.path.join(full, rel)
+            if os.path.islink(fp):
+                out += b"L" + _fr(rel.encode()) + _fr(os.readlink(fp).encode())
+            else:
+                out += b"F" + _fr(rel.encode()) + _fr(open(fp, "rb").read())
         return out.decode("latin-1")
     if os.path.isfile(full):
         return open(full, "rb").read().decode("latin-1")
@@ -338,6 +387,7 @@ def watch_paths(hist):
     for s in hist["steps"]:
         if s["k"] == "edit":
             paths.update(w[0] for w in s.get("writes", []) if not isinstance(w, dict))
+            paths.update(w["dirtamper"] for w in s.get("writes", []) if isinstance(w, dict) and "dirtamper" in w)
     return sorted(paths)
 
 
@@ -384,6 +434,10 @@ def read_trace(trace, pos):
     return [x for x in data[pos:].split("\n") if x], len(data)
 
 
+def cache_prefix(wsdir):
+    return hashlib.sha256(wsdir.encode()).hexdigest()[:16] + "-" + os.path.basename(wsdir)
+
+
 def cache_dir(root_dir):
     for d in os.listdir(root_dir):
         c = os.path.join(root_dir, d, "cache")
@@ -417,6 +471,8 @@ def build_args(step, force_minimal=None):
 def run_real(grog, hist, base, force_minimal=None, upto=None):
     """Run the history against the real binary in `base` (fresh). Returns the list of build observations."""
     shutil.rmtree(base, ignore_errors=True)
+    base = os.path.realpath(base)
+    nmoved = 0
     wsdir, root_dir, trace = os.path.join(base, "ws"), os.path.join(base, "root"), os.path.join(base, "trace")
     os.makedirs(wsdir)
     os.makedirs(root_dir)
@@ -431,6 +487,17 @@ def run_real(grog, hist, base, force_minimal=None, upto=None):
             sync_ws(wsdir, ws, s["ws"])
             ws = s["ws"]
             apply_writes(wsdir, s.get("writes", []))
+        elif s["k"] == "relocate":
+            # the same checkout at another absolute path, seeing the same local cache (the per-workspace cache directory is
+            # selected by sha256(workspace path)[:16]-basename: it is renamed along, like a second clone sharing a cache)
+            nmoved += 1
+            new = os.path.join(base, "moved%d" % nmoved, "elsewhere", "ws")
+            os.makedirs(os.path.dirname(new))
+            shutil.move(wsdir, new)
+            oldp, newp = os.path.join(root_dir, cache_prefix(wsdir)), os.path.join(root_dir, cache_prefix(new))
+            if os.path.isdir(oldp):
+                os.rename(oldp, newp)
+            wsdir = new
         elif s["k"] == "taint":
             rc, out = run_grog(grog, wsdir, root_dir, trace, ["taint"] + s["patterns"])
             if rc != 0:
@@ -473,11 +540,11 @@ def model_targets(ws, fixes, extra_files=None):
         deps = rdeps(ws, l)
         old = direct_target_deps(ws, l)
         outs = [{"dir": o["dir"], "path": out_path(t, o)} for o in sorted_outs(t)]
-        writes = [o for o in outs if o["path"][len(pre):] not in t.get("skip", [])]
+        writes = [o for o in outs if o["path"][len(pre):] not in t.get("skip", []) and o["path"][len(pre):] != t.get("bin")]
         out.append({
             "label": l,
             "cmd": {"salt": t["salt"], "beh": t.get("beh", 0), "writes": writes,
-                    "sets": [[p, c] for p, c in t.get("sets", [])]},
+                    "sets": [[p, c] for p, c in t.get("sets", [])], "split": bool(t.get("split"))},
             "inputs": [pre + r for r in resolved_inputs(ws, l, extra_files)],
             "outs": outs, "deps": deps,
             "hdeps": deps if fixes["alias"] else old, "ldeps": deps if fixes["alias"] else old,
@@ -492,7 +559,7 @@ def model_request(hist, fixes=ALL_FIXES, force_minimal=None):
     """the `build.simulate` request predicting the history (the model tracks the whole file system itself)"""
     ws = hist["ws"]
     watch = watch_paths(hist)
-    steps = [{"k": "edit", "targets": model_targets(ws, fixes), "writes": []}]
+    steps = [{"k": "edit", "targets": model_targets(ws, fixes), "writes": [], "tampers": []}]
     files = [[p, c] for p, c in sorted(ws["files"].items())]
     for s in hist["steps"]:
         if s["k"] == "edit":
@@ -504,10 +571,16 @@ def model_request(hist, fixes=ALL_FIXES, force_minimal=None):
                     writes.append([p, c])
             for w in s.get("writes", []):
                 if isinstance(w, dict):
+                    if "dirtamper" in w:
+                        writes.append({"path": w["dirtamper"], "op": w["op"]})
+                        continue
                     raise ValueError("rmtree writes have no model counterpart; expand them to paths")
                 writes.append([w[0], w[1]])
             ws = s["ws"]
-            steps.append({"k": "edit", "targets": model_targets(ws, fixes), "writes": writes})
+            steps.append({"k": "edit", "targets": model_targets(ws, fixes), "writes": [w for w in writes if not isinstance(w, dict)],
+                          "tampers": [w for w in writes if isinstance(w, dict)]})
+        elif s["k"] == "relocate":
+            pass
         elif s["k"] == "taint":
             steps.append({"k": "taint", "labels": matched_targets(ws, s["patterns"])})
         elif s["k"] == "drop":
@@ -516,7 +589,7 @@ def model_request(hist, fixes=ALL_FIXES, force_minimal=None):
             minimal = s.get("minimal", False) if force_minimal is None else force_minimal
             steps.append({"k": "build", "enableCache": s.get("enable_cache", True), "minimal": minimal,
                           "order": selected(ws, s["patterns"]), "watch": watch, "labels": sorted(ws["targets"])})
-    return {"op": "build.simulate", "fx": {k: fixes[k] for k in ("gateChecks", "syncTaint", "rerunOnce", "minValidate")},
+    return {"op": "build.simulate", "fx": {k: fixes[k] for k in ("gateChecks", "syncTaint", "rerunOnce", "minValidate", "loadFault")},
             "files": files, "steps": steps}
 
 
@@ -584,7 +657,8 @@ def compare(hist, real, model, multiset=True):
 # generators
 # ------------------------------------------------------------------------------------------------
 
-def gen_ws(rng, n=None, aliases=True, dirs=True, multi_out=True, nocache_p=0.0, checks_p=0.0):
+def gen_ws(rng, n=None, aliases=True, dirs=True, multi_out=True, nocache_p=0.0, checks_p=0.0, split_p=0.1, shared_p=0.25, dir_p=0.3,
+           outless_p=0.08, tool_p=0.0, multicheck=False, alias_p=0.35, alias2_p=0.2):
     """layered DAG of n targets (dependencies point to earlier targets), 1-2 targets per package"""
     n = n or rng.randint(2, 6)
     ws = {"targets": {}, "aliases": {}, "files": {}}
@@ -623,10 +697,10 @@ def gen_ws(rng, n=None, aliases=True, dirs=True, multi_out=True, nocache_p=0.0, 
         for j in range(i):
             if rng.random() < (0.5 if j == i - 1 else 0.25):
                 d = labels[j]
-                if aliases and rng.random() < 0.35:
+                if aliases and rng.random() < alias_p:
                     al = lab(ws["targets"][d]["pkg"], "al%d_%d" % (j, i))
                     ws["aliases"][al] = d
-                    if rng.random() < 0.2:
+                    if rng.random() < alias2_p:
                         al2 = lab(pkg, "al2_%d_%d" % (j, i))
                         ws["aliases"][al2] = al
                         al = al2
@@ -634,28 +708,65 @@ def gen_ws(rng, n=None, aliases=True, dirs=True, multi_out=True, nocache_p=0.0, 
                 deps.append(d)
         outs = []
         r = rng.random()
-        if r < 0.08:
+        if r < outless_p:
             pass
         else:
             outs.append({"dir": False, "rel": rng.choice(["o%d.txt" % i, "out%d/o%d.txt" % (i, i)])})
             if multi_out and rng.random() < 0.3:
                 outs.append({"dir": False, "rel": "o%d_b.txt" % i})
-            if dirs and rng.random() < 0.3:
+            if dirs and rng.random() < dir_p:
                 outs.append({"dir": True, "rel": "dist%d" % i})
         t = {"pkg": pkg, "name": name, "globs": globs, "excl": excl, "salt": "s%d" % rng.randint(0, 9), "deps": deps,
              "outs": outs, "fp": {}, "nocache": rng.random() < nocache_p, "checks": [], "beh": 0, "skip": [], "sets": []}
         if rng.random() < 0.15:
             t["fp"] = {"k": "v%d" % rng.randint(0, 3)}
         if rng.random() < checks_p:
-            flag = "ext/%s.flag" % name
-            exp = rng.choice([None, "ok\n"])
-            t["checks"] = [{"flag": flag, "exp": exp}]
-            if rng.random() < 0.5:
-                t["sets"] = [[flag, "ok\n"]]
-            else:
-                ws["files"][flag] = "ok\n"
+            nchk = rng.choice([1, 2, 2, 3]) if multicheck else 1
+            own = rng.random() < 0.5
+            for ci in range(nchk):
+                flag = "ext/%s%s.flag" % (name, "" if ci == 0 else "_%d" % ci)
+                exp = rng.choice([None, "ok\n"])
+                t["checks"].append({"flag": flag, "exp": exp})
+                if own:
+                    t["sets"].append([flag, "ok\n"])
+                else:
+                    ws["files"][flag] = "ok\n"
+        if rng.random() < tool_p:
+            # a checked-in script that is both an input and the bin_output (docs/topics/binary-outputs)
+            tool = "tool%d.sh" % i
+            ws["files"][pkg + "/" + tool] = "#!/bin/sh\necho v%d\n" % rng.randint(0, 99)
+            t["globs"] = t["globs"] + [tool]
+            t["bin"] = tool
+            t["nocache"] = rng.random() < 0.6
+        # splitter: >= 2 inputs, 2 file outputs, output k = copy of input k (an edit can make the outputs swap contents)
+        if rng.random() < split_p and kind in ("star", "src") and not excl:
+            pre = pkg + "/"
+            have = [f for f in ws["files"] if f.startswith(pre) and any(glob_match(g, f[len(pre):]) for g in globs)]
+            if len(have) < 2:
+                ws["files"][pre + (globs[0].replace("*", "zz"))] = "v%d\n" % rng.randint(0, 99)
+            t["split"] = True
+            t["outs"] = [{"dir": False, "rel": "o%d.txt" % i}, {"dir": False, "rel": "o%d_b.txt" % i}]
         ws["targets"][l] = t
         labels.append(l)
+    # two targets of one package sharing the same single glob, one of them excluding the file that sorts first
+    if rng.random() < shared_p:
+        cands = [x for x in labels if len(ws["targets"][x]["globs"]) == 1 and "*" in ws["targets"][x]["globs"][0]
+                 and "**" not in ws["targets"][x]["globs"][0] and not ws["targets"][x]["excl"]]
+        if cands:
+            v = rng.choice(cands)
+            vt = ws["targets"][v]
+            i = len(labels)
+            pre = vt["pkg"] + "/"
+            matches = sorted(f[len(pre):] for f in ws["files"] if f.startswith(pre) and glob_match(vt["globs"][0], f[len(pre):]))
+            if len(matches) < 2:
+                extra = vt["globs"][0].replace("*", "zz")
+                ws["files"][pre + extra] = "v%d\n" % rng.randint(0, 99)
+                matches = sorted(matches + [extra])
+            name = "t%d" % i
+            l2 = lab(vt["pkg"], name)
+            ws["targets"][l2] = {"pkg": vt["pkg"], "name": name, "globs": list(vt["globs"]), "excl": [matches[0]],
+                                 "salt": "s%d" % rng.randint(0, 9), "deps": [], "outs": [{"dir": False, "rel": "o%d.txt" % i}],
+                                 "fp": {}, "nocache": False, "checks": [], "beh": 0, "skip": [], "sets": []}
     return ws
 
 
@@ -672,7 +783,7 @@ def gen_edit(rng, ws, kinds=None):
     l = rng.choice(labels)
     t = ws["targets"][l]
     kinds = kinds or ["content", "content", "addfile", "rmfile", "rename", "salt", "salt", "outs", "fp", "adddep", "rmdep",
-                      "realias", "viaalias", "nocache"]
+                      "realias", "viaalias", "nocache", "swapin", "exclfile"]
     k = rng.choice(kinds)
     pre = t["pkg"] + "/" if t["pkg"] else ""
     srcs = src_files_of(ws, l)
@@ -715,6 +826,8 @@ def gen_edit(rng, ws, kinds=None):
         t["salt"] = "s%d" % rng.randint(10, 99)
         return ws, [], "command of %s" % l
     if k == "outs":
+        if t.get("split"):
+            return None
         i = int(t["name"][1:])
         r = rng.random()
         if t["outs"] and r < 0.4:
@@ -772,6 +885,37 @@ def gen_edit(rng, ws, kinds=None):
             ws["targets"][d]["salt"] = "s%d" % rng.randint(100, 199)
             return ws, [], "command of %s (reaches %s through alias %s)" % (d, x, a)
         return None
+    if k == "swapin":
+        sp = [x for x in labels if ws["targets"][x].get("split")]
+        if not sp:
+            return None
+        x = rng.choice(sp)
+        fsx = src_files_of(ws, x)
+        if len(fsx) < 2 or ws["files"][fsx[0]] == ws["files"][fsx[1]]:
+            return None
+        ws["files"][fsx[0]], ws["files"][fsx[1]] = ws["files"][fsx[1]], ws["files"][fsx[0]]
+        return ws, [], "swap contents of %s and %s (outputs of %s swap)" % (fsx[0], fsx[1], x)
+    if k == "exclfile":
+        ex = [(x, e) for x in labels for e in ws["targets"][x].get("excl", [])]
+        if not ex:
+            return None
+        x, e = rng.choice(ex)
+        xt = ws["targets"][x]
+        pth = (xt["pkg"] + "/" if xt["pkg"] else "") + e
+        if pth not in ws["files"]:
+            return None
+        ws["files"][pth] = "q%d\n" % rng.randint(100, 999)
+        return ws, [], "content of %s (excluded by %s only)" % (pth, x)
+    if k == "toolcontent":
+        tl = [x for x in labels if ws["targets"][x].get("bin") and any(x in rdeps(ws, y) for y in labels)] or \
+             [x for x in labels if ws["targets"][x].get("bin")]
+        if not tl:
+            return None
+        x = rng.choice(tl)
+        xt = ws["targets"][x]
+        pth = (xt["pkg"] + "/" if xt["pkg"] else "") + xt["bin"]
+        ws["files"][pth] = "#!/bin/sh\necho v%d\n" % rng.randint(100, 999)
+        return ws, [], "content of %s (input and bin_output of %s)" % (pth, x)
     if k == "nocache":
         t["nocache"] = not t.get("nocache")
         return ws, [], "toggle no-cache of %s" % l
@@ -788,7 +932,7 @@ def gen_edit(rng, ws, kinds=None):
         ws["files"][f] = "ok\n" if k == "flagon" else "no\n"
         return ws, [], ("establish" if k == "flagon" else "spoil") + " external condition %s" % f
     if k == "beh":
-        t["beh"] = rng.choice([0, 1, 1, 2]) if t.get("beh", 0) == 0 else 0
+        t["beh"] = rng.choice([1, 1, 2, 2]) if t.get("beh", 0) == 0 else 0
         return ws, [], "behaviour of %s := %d" % (l, t["beh"])
     if k == "skipout":
         if t.get("skip"):
@@ -799,6 +943,30 @@ def gen_edit(rng, ws, kinds=None):
             return None
         t["skip"] = [rng.choice(fo)]
         return ws, [], "%s stops writing %s" % (l, t["skip"][0])
+    if k == "skipfresh":
+        # the command stops writing one declared output (first / middle / last, file or dir::) and the output is not there
+        withdir = [x for x in labels if any(o["dir"] for o in ws["targets"][x]["outs"]) and not ws["targets"][x].get("skip")]
+        if withdir and rng.random() < 0.5:
+            l = rng.choice(withdir)
+            t = ws["targets"][l]
+            cands = [o for o in t["outs"] if o["dir"]]
+        else:
+            cands = [o for o in t["outs"]]
+        if not cands or t.get("skip") or t.get("split"):
+            return None
+        o = rng.choice(cands)
+        t["skip"] = [o["rel"]]
+        return ws, [[out_path(t, o), None]], "%s stops writing %s%s, which is deleted" % (l, "dir::" if o["dir"] else "", o["rel"])
+    if k == "skipfirst":
+        # >= 2 declared outputs, the FIRST one (declaration order) is no longer written and is not there
+        multi = [x for x in labels if len(ws["targets"][x]["outs"]) >= 2 and not ws["targets"][x].get("skip") and not ws["targets"][x].get("split")]
+        if not multi:
+            return None
+        l = rng.choice(multi)
+        t = ws["targets"][l]
+        o = t["outs"][0] if rng.random() < 0.7 else t["outs"][len(t["outs"]) // 2]
+        t["skip"] = [o["rel"]]
+        return ws, [[out_path(t, o), None]], "%s stops writing %s%s, which is deleted" % (l, "dir::" if o["dir"] else "", o["rel"])
     if k == "addcheck":
         flag = "ext/%s.flag" % t["name"]
         if t.get("checks"):
@@ -809,12 +977,14 @@ def gen_edit(rng, ws, kinds=None):
     return None
 
 
-def gen_tamper(rng, ws, kinds=("delete", "modify", "rmdir", "moddir", "extradir")):
+def gen_tamper(rng, ws, kinds=("delete", "modify", "rmdir", "moddir", "extradir", "rmindir"), prefer_dirs=0.5):
     """tamper with a declared output path; returns (writes for the real side expanded to paths, description)"""
     outs = [(l, o) for l, t in ws["targets"].items() for o in t["outs"]]
     if not outs:
         return None
-    l, o = rng.choice(sorted(outs, key=lambda x: (x[0], x[1]["rel"])))
+    outs = sorted(outs, key=lambda x: (x[0], x[1]["rel"]))
+    douts = [x for x in outs if x[1]["dir"]]
+    l, o = rng.choice(douts) if douts and rng.random() < prefer_dirs else rng.choice(outs)
     p = out_path(ws["targets"][l], o)
     k = rng.choice(kinds)
     if not o["dir"]:
@@ -825,7 +995,9 @@ def gen_tamper(rng, ws, kinds=("delete", "modify", "rmdir", "moddir", "extradir"
         return None
     if k in ("delete", "rmdir"):
         return [[p, None]], "delete directory %s" % p
-    return None
+    op = {"moddir": "mod", "extradir": rng.choice(["extra", "extrasub"])}.get(k, "rmfile")
+    return [{"dirtamper": p, "op": op}], "%s inside directory %s (symlink left in place)" % (
+        {"mod": "modify a.txt", "extra": "add stale file", "extrasub": "add stale file in in/", "rmfile": "remove sub/b.txt"}[op], p)
 
 
 def shift_pair(rng, ws):
@@ -850,9 +1022,84 @@ def gen_history(rng, family="mixed", nsteps=None, full=False, minimal=None):
     if family in ("nocache", "taint", "minimal-nocache"):
         kw["nocache_p"] = 0.3
     if family == "checks":
-        kw["checks_p"] = 0.6
+        kw.update(checks_p=0.6, multicheck=True, multi_out=True, dir_p=0.5)
+    if family in ("outless", "taintdis"):
+        kw.update(outless_p=0.4, nocache_p=0.25)
+    if family == "tool":
+        kw.update(tool_p=0.5)
+    if family == "swap":
+        kw.update(split_p=0.6, dirs=False)
+    if family == "shared":
+        kw.update(shared_p=1.0)
+    if family == "dirs":
+        kw.update(dir_p=0.8)
+    if family == "aliaswipe":
+        kw.update(alias_p=0.8, alias2_p=0.6)
+    if family == "lostblob":
+        kw.update(n=rng.randint(3, 5), dirs=False, split_p=0.0, shared_p=0.0, outless_p=0.0)
     ws = gen_ws(rng, **kw)
-    hist = {"ws": ws, "algo": rng.choice(["xxh3", "sha256"]), "steps": [], "tags": [family]}
+    if family == "dirs" and not any(any(o["dir"] for o in t_["outs"]) and any("*" in g for g in t_["globs"]) for t_ in ws["targets"].values()):
+        for x in sorted(ws["targets"]):
+            xt = ws["targets"][x]
+            if any("*" in g for g in xt["globs"]) and not xt.get("split"):
+                xt["outs"].append({"dir": True, "rel": "dist%s" % xt["name"][1:]})
+                break
+    if family == "aliaswipe":
+        # make sure some target reaches a dependency only through an alias of an alias
+        def chained(w):
+            return [(x, a) for x in sorted(w["targets"]) for a in w["targets"][x]["deps"] if a in w["aliases"] and w["aliases"][a] in w["aliases"]]
+        if not chained(ws):
+            order = sorted(ws["targets"], key=lambda x: int(ws["targets"][x]["name"][1:]))
+            if len(order) >= 2:
+                d, x = order[0], order[-1]
+                a1 = lab(ws["targets"][d]["pkg"], "alc1")
+                a2 = lab(ws["targets"][x]["pkg"], "alc2")
+                ws["aliases"][a1] = d
+                ws["aliases"][a2] = a1
+                ws["targets"][x]["deps"] = [y for y in ws["targets"][x]["deps"] if resolve_alias(ws, y) != d and y != d] + [a2]
+    if family == "lostblob":
+        # a chain e <- d <- x (all cached, file outputs): the blob of d's output will be lost
+        order = sorted(ws["targets"], key=lambda x: int(ws["targets"][x]["name"][1:]))
+        for a, b_ in zip(order, order[1:]):
+            if a not in rdeps(ws, b_):
+                ws["targets"][b_]["deps"].append(a)
+        for x in order:
+            xt = ws["targets"][x]
+            xt["nocache"] = False
+            if not any(not o["dir"] for o in xt["outs"]):
+                xt["outs"].append({"dir": False, "rel": "o%s.txt" % xt["name"][1:]})
+    if family == "tool":
+        # make sure some script target (input == bin_output, usually no-cache) has a dependant that reads the script
+        order = sorted(ws["targets"], key=lambda x: int(ws["targets"][x]["name"][1:]))
+        tools = [x for x in order[:-1] if ws["targets"][x].get("bin")]
+        if not tools:
+            x = order[0]
+            xt = ws["targets"][x]
+            tool = "tool%s.sh" % xt["name"][1:]
+            ws["files"][xt["pkg"] + "/" + tool] = "#!/bin/sh\necho v0\n"
+            xt["globs"] = xt["globs"] + [tool]
+            xt["bin"] = tool
+            xt["nocache"] = True
+            tools = [x]
+        x = tools[0]
+        ws["targets"][x]["nocache"] = True
+        # the script is the only output: the generic command copies every input into every generated output, which would
+        # make the other outputs change with the script and invalidate the dependants anyway
+        ws["targets"][x]["outs"] = []
+        ws["targets"][x]["split"] = False
+        later = [y for y in order if order.index(y) > order.index(x)]
+        if later:
+            y = later[0]
+            yt = ws["targets"][y]
+            yt["nocache"] = False           # a cached dependant: it must be invalidated when the script changes
+            if yt.get("bin"):
+                yt["globs"] = [g for g in yt["globs"] if g != yt["bin"]]
+                yt["bin"] = None
+            if not yt["outs"]:
+                yt["outs"] = [{"dir": False, "rel": "o%s.txt" % yt["name"][1:]}]
+            if x not in rdeps(ws, y):
+                yt["deps"].append(x)
+    hist = {"ws": ws, "algo": "sha256" if family == "lostblob" else rng.choice(["xxh3", "sha256"]), "steps": [], "tags": [family]}
     cur = ws
     versions = [ws]
     minimal = family.startswith("minimal") if minimal is None else minimal
@@ -879,18 +1126,143 @@ def gen_history(rng, family="mixed", nsteps=None, full=False, minimal=None):
         return hist
     for _ in range(n):
         r = rng.random()
+        if family == "lostblob":
+            order = sorted(cur["targets"], key=lambda x: int(cur["targets"][x]["name"][1:]))
+            mid = rng.choice(order[1:-1]) if len(order) > 2 else order[0]
+            mo = [o for o in cur["targets"][mid]["outs"] if not o["dir"]][0]
+            hist["steps"].append({"k": "drop", "path": out_path(cur["targets"][mid], mo)})
+            # the workspace copy goes too: with the file still in place and matching, the handler's local-digest short cut
+            # restores "from the workspace" and the lost blob is not noticed (not modelled: restore needs the blob)
+            if rng.random() < 0.7:
+                writes = [[pth, None] for pth in sorted(all_out_paths(cur))]
+                hist["steps"].append({"k": "edit", "ws": cur, "writes": writes, "what": "tamper: wipe all declared outputs"})
+            else:
+                hist["steps"].append({"k": "edit", "ws": cur, "writes": [[out_path(cur["targets"][mid], mo), None]],
+                                      "what": "tamper: delete %s" % out_path(cur["targets"][mid], mo)})
+            top = order[order.index(mid) + 1] if rng.random() < 0.7 else rng.choice(order[order.index(mid) + 1:])
+            e2 = copy.deepcopy(cur)
+            e2["targets"][top]["salt"] = "s%d" % rng.randint(300, 399)
+            hist["steps"].append({"k": "edit", "ws": e2, "writes": [], "what": "command of %s (downstream of the lost blob of %s)" % (top, mid)})
+            cur = e2
+            versions.append(cur)
+            build(["//..."] if rng.random() < 0.6 else [top])
+            continue
+        if family == "checks" and r < 0.3:
+            # the checked external condition is destroyed, the target runs and fails its check, the condition is
+            # re-established from outside: the target must run again (nothing may have been cached by the failed run)
+            ext = sorted({c["flag"] for t_ in cur["targets"].values() for c in t_.get("checks", [])
+                          if c["flag"] in cur["files"] and not any(c["flag"] == p_ for p_, _ in t_.get("sets", []))})
+            if ext:
+                f = rng.choice(ext)
+                keep = cur["files"][f]
+                off = copy.deepcopy(cur)
+                del off["files"][f]
+                hist["steps"].append({"k": "edit", "ws": off, "writes": [[f, None]], "what": "destroy external condition %s" % f})
+                cur = off
+                build(["//..."])
+                if rng.random() < 0.4:
+                    e = gen_edit(rng, cur, ["content", "salt"])
+                    if e and wf(e[0]):
+                        hist["steps"].append({"k": "edit", "ws": e[0], "writes": e[1], "what": e[2]})
+                        cur = e[0]
+                        build(["//..."])
+                on = copy.deepcopy(cur)
+                on["files"][f] = keep
+                hist["steps"].append({"k": "edit", "ws": on, "writes": [], "what": "establish external condition %s" % f})
+                cur = on
+                versions.append(cur)
+                build(["//..."])
+                continue
+        if family == "dirs" and r < 0.35:
+            cand = [x for x in sorted(cur["targets"]) if any(o["dir"] for o in cur["targets"][x]["outs"])
+                    and any("*" in g for g in cur["targets"][x]["globs"])]
+            if cand:
+                x = rng.choice(cand)
+                xt = cur["targets"][x]
+                g = [g for g in xt["globs"] if "*" in g][0]
+                newf = (xt["pkg"] + "/" if xt["pkg"] else "") + g.replace("/**/", "/d3/").replace("*", "m%d" % rng.randint(0, 99))
+                w1 = copy.deepcopy(cur)
+                w1["files"][newf] = "a%d\n" % rng.randint(0, 99)
+                hist["steps"].append({"k": "edit", "ws": w1, "writes": [], "what": "add %s" % newf})
+                build(["//..."])
+                hist["steps"].append({"k": "edit", "ws": cur, "writes": [], "what": "remove %s again (the directory output shrinks back)" % newf})
+                versions.append(cur)
+                if rng.random() < 0.5:
+                    e = gen_edit(rng, cur, ["salt"])
+                    if e:
+                        hist["steps"].append({"k": "edit", "ws": e[0], "writes": e[1], "what": e[2]})
+                        cur = e[0]
+                        versions.append(cur)
+                build(["//..."])
+                continue
+        if family == "dirs" and r < 0.5 and len(versions) >= 2:
+            cur = versions[-2]
+            versions.append(cur)
+            hist["steps"].append({"k": "edit", "ws": cur, "writes": [], "what": "revert sources to an earlier version"})
+            if rng.random() < 0.5:
+                e = gen_edit(rng, cur, ["salt"])
+                if e:
+                    hist["steps"].append({"k": "edit", "ws": e[0], "writes": e[1], "what": e[2]})
+                    cur = e[0]
+                    versions.append(cur)
+            build()
+            continue
+        if family == "dirs" and r < 0.75:
+            tp = gen_tamper(rng, cur, kinds=("moddir", "extradir", "rmindir", "rmdir"), prefer_dirs=1.0)
+            if tp:
+                hist["steps"].append({"k": "edit", "ws": cur, "writes": tp[0], "what": "tamper: " + tp[1]})
+                build()
+                continue
         if family == "tamper" and r < 0.6:
             tp = gen_tamper(rng, cur)
             if tp:
                 hist["steps"].append({"k": "edit", "ws": cur, "writes": tp[0], "what": "tamper: " + tp[1]})
                 build()
                 continue
-        if family in ("taint", "nocache") and r < 0.4:
+        if family in ("taint", "nocache", "taintedit", "taintdis", "outless") and r < (0.7 if family in ("taintedit", "taintdis") else 0.4):
             l = rng.choice(sorted(cur["targets"]))
-            hist["steps"].append({"k": "taint", "patterns": [l] if rng.random() < 0.8 else ["//..."]})
+            rr = rng.random()
+            pats = [l]
+            if rr < 0.2:
+                pats = ["//..."]
+            elif rr < 0.45 and rdeps(cur, l):
+                pats = [l, rng.choice(rdeps(cur, l))]            # a target and one of its dependencies
+            elif rr < 0.55:
+                pats = ["//" + cur["targets"][l]["pkg"] + "/..."]
+            hist["steps"].append({"k": "taint", "patterns": pats})
+            if family in ("taintdis", "outless") and rng.random() < 0.6:
+                build(enable_cache=False)                          # the tainted target runs with the cache disabled
+                build()
+                continue
+            if rng.random() < 0.5:
+                # taint + edit of the same target: the tainted target has a cache miss anyway
+                e2 = copy.deepcopy(cur)
+                e2["targets"][l]["salt"] = "s%d" % rng.randint(200, 299)
+                hist["steps"].append({"k": "edit", "ws": e2, "writes": [], "what": "command of %s (just tainted)" % l})
+                cur = e2
+                versions.append(cur)
+            build()
+            if rng.random() < 0.5:
+                build()     # no-op rebuild right after the taint was consumed
+            continue
+        if family in ("relocate",) and r < 0.5 or (family in ("edits", "tamper", "wipe") and r > 0.94):
+            hist["steps"].append({"k": "relocate"})
             build()
             continue
-        if family == "wipe" and r < 0.75:
+        if family == "aliaswipe" and r < 0.45:
+            ch = [(x, a) for x in sorted(cur["targets"]) for a in cur["targets"][x]["deps"] if a in cur["aliases"] and cur["aliases"][a] in cur["aliases"]]
+            if ch:
+                x, a = rng.choice(ch)
+                writes = [[pth, None] for pth in sorted(all_out_paths(cur))]
+                hist["steps"].append({"k": "edit", "ws": cur, "writes": writes, "what": "tamper: wipe all declared outputs"})
+                e2 = copy.deepcopy(cur)
+                e2["targets"][x]["salt"] = "s%d" % rng.randint(400, 499)
+                hist["steps"].append({"k": "edit", "ws": e2, "writes": [], "what": "command of %s (its dependency is behind the alias chain %s)" % (x, a)})
+                cur = e2
+                versions.append(cur)
+                build(["//..."] if rng.random() < 0.5 else [x])
+                continue
+        if family in ("wipe", "aliaswipe") and r < (0.75 if family == "wipe" else 0.7):
             # fresh-checkout shape: every declared output disappears (files only, directories of file outputs stay),
             # or the sources go back to an earlier version (outputs in the workspace are then stale w.r.t. the cache hit)
             if r < 0.45 or len(versions) < 2:
@@ -931,10 +1303,18 @@ def gen_history(rng, family="mixed", nsteps=None, full=False, minimal=None):
         e = None
         for _try in range(6):
             kinds = None
-            if family == "alias":
+            if family in ("alias", "aliaswipe"):
                 kinds = ["viaalias", "viaalias", "realias", "adddep", "content"]
+            if family == "tool":
+                kinds = ["toolcontent", "toolcontent", "toolcontent", "content", "salt"]
+            if family == "swap":
+                kinds = ["swapin", "swapin", "swapin", "content", "salt"]
+            if family == "shared":
+                kinds = ["exclfile", "exclfile", "content", "addfile", "salt"]
+            if family == "dirs":
+                kinds = ["addfile", "addfile", "addfile", "rmfile", "content", "salt"]
             if family == "checks":
-                kinds = ["flagoff", "flagoff", "flagon", "flagbad", "beh", "skipout", "addcheck", "content", "salt"]
+                kinds = ["flagoff", "flagoff", "flagon", "flagon", "flagbad", "beh", "beh", "skipout", "skipfresh", "skipfresh", "skipfirst", "skipfirst", "addcheck", "content", "salt"]
             e = gen_edit(rng, cur, kinds)
             if e and wf(e[0]):
                 break
@@ -943,6 +1323,9 @@ def gen_history(rng, family="mixed", nsteps=None, full=False, minimal=None):
             hist["steps"].append({"k": "edit", "ws": e[0], "writes": e[1], "what": e[2]})
             cur = e[0]
             versions.append(cur)
+            if " stops writing " in e[2] and rng.random() < 0.7:
+                build([e[2].split(" stops writing ")[0]])       # the verdict of this build is the verdict of that target
+                continue
         build()
     return hist
 
@@ -979,6 +1362,8 @@ def describe(hist):
             out.append("taint " + " ".join(s["patterns"]))
         elif s["k"] == "drop":
             out.append("drop-blob " + s["path"])
+        elif s["k"] == "relocate":
+            out.append("relocate workspace (same cache)")
         else:
             fl = ("" if s.get("enable_cache", True) else " --enable-cache=false") + (" minimal" if s.get("minimal") else "") + \
                  (" --fail-fast" if s.get("fail_fast") else "")
@@ -1082,7 +1467,7 @@ def run_both(ctx, hists, scratch_name="h", fixes=ALL_FIXES, par=4, force_minimal
 
 def selected_outputs(ws, patterns):
     """declared output paths of the targets a build of `patterns` processes"""
-    return sorted(out_path(ws["targets"][l], o) for l in selected(ws, patterns) for o in ws["targets"][l]["outs"])
+    return sorted(out_path(ws["targets"][l], o) for l in selected(ws, patterns) for o in all_outs(ws["targets"][l]))
 
 
 def clean_oracle(ctx, hist, real, scratch_name="clean", par=4, which="last"):
@@ -1262,6 +1647,14 @@ def tkey(ws, l):
     ins = [(r, ws["files"].get(pre + r)) for r in resolved_inputs(ws, l)]
     return json.dumps([cmd_text(ws, l), ins, [(o["dir"], o["rel"]) for o in sorted_outs(t)], sorted(t.get("fp", {}).items()),
                        rdeps(ws, l), bool(t.get("nocache")), t.get("checks", [])], sort_keys=True)
+
+
+def state_key(ws, l):
+    """what the cache key of a dependency-free target is made of (checks and tags are not part of it)"""
+    t = ws["targets"][l]
+    pre = t["pkg"] + "/" if t["pkg"] else ""
+    ins = [(r, ws["files"].get(pre + r)) for r in resolved_inputs(ws, l)]
+    return json.dumps([cmd_text(ws, l), ins, [(o["dir"], o["rel"]) for o in sorted_outs(t)], sorted(t.get("fp", {}).items())], sort_keys=True)
 
 
 def descendants(ws, roots):
